@@ -67,7 +67,7 @@ def quick_sample(fn, c, db):
         keep = {0, hi - 1, (SEED * 5 + 3) % hi} if hi > 4 else set(range(hi))
     else:
         hi = t.W
-        keep = {0, hi - 1, hi, (SEED * 5 + 3) % (hi + 1)} if hi > 4 else set(range(hi + 1))
+        keep = {0, hi, (SEED * 5 + 3) % (hi + 1)} if hi > 2 else set(range(hi + 1))
     return v in keep
 
 
